@@ -584,6 +584,16 @@ theorem partition_total (e0 : Nat) (st0 : Store) (ss : List Step) (maxR : Nat)
   obtain ⟨a, b, c⟩ := partition_total_of_covers l hi maxR hc hov' E h1 h2
   exact ⟨_, a, b, c⟩
 
+/-- The tracker substate found in the database right after the real genesis (read from a freshly
+bootstrapped `LedgerSimulator` on every run) *is* `genesisTracker` of its start epoch, and the ledger
+is anchored: the hypotheses of `partition_total` / `run_single_safe` hold for the real initial state. -/
+theorem real_genesis_is_anchored :
+    ({ startEpoch := GENESIS_START_EPOCH, startPartition := GENESIS_START_PARTITION,
+       rs := GENESIS_RANGE_START, re := GENESIS_RANGE_END, epp := GENESIS_EPOCHS_PER_PARTITION } : Tracker)
+      = genesisTracker GENESIS_START_EPOCH ∧
+    Inv { tracker := genesisTracker GENESIS_START_EPOCH, store := Store.empty, epoch := GENESIS_EPOCH } := by
+  refine ⟨by decide, genesis_wf _, by decide, by decide⟩
+
 /-! ### Non-vacuity: concrete states satisfying the hypotheses -/
 
 /-- a ledger at epoch 1234 on the real ring, with the replay record of intent `(7, 1300)` -/
